@@ -611,7 +611,7 @@ Theorem lockstep_sends_and_receipts :
       exists gh, nth_error gs (Z.to_nat pl) = Some gh /\ 0 <= f < hlen (fst gh) /\ hval (fst gh) f = v) /\
     (forall pl e gh f, 0 <= pl -> nth_error kinds (Z.to_nat pl) = Some (KRemote e) ->
       nth_error gs (Z.to_nat pl) = Some gh -> 0 <= f < hlen (fst gh) -> In (SRemote pl f (hval (fst gh) f)) ops) /\
-    ps_kinds p = kinds /\ OB p gs.
+    ps_kinds p = kinds /\ OB p gs /\ Forall (confirmed_ok gs) (all_adv_frames [] outs).
 Proof.
   intros predict Hi Hz ops n d kinds eps nspec p outs Hd Hcap Hn Hlen Hpl H.
   set (p0 := session_start n 0 false d kinds eps nspec) in *.
@@ -622,11 +622,11 @@ Proof.
     exists (repeat ([], 0) (Z.to_nat n)), d. split; [exact HQS0|exact HTI0]. }
   destruct (run_sends_g predict Hi Hz false (CIl predict) (lockstep_CI_step predict Hi Hz) (lockstep_CI_adv predict Hi)
               (lockstep_CI_frame predict) ops p0 _ (game0 0) 0 d HQS0 HCI0 HTI0 (conj (OI_start predict Hi false n 0 d kinds eps nspec) (OB_start false n 0 d kinds eps nspec)))
-    as [E|(p' & outs' & gs & g & E1 & Ex & HQS & HCI & (HG & HGI & HPN) & (_ & HB) & _ & Hk & Hr & Hdl & Hcv)]; [congruence|].
+    as [E|(p' & outs' & gs & g & E1 & Ex & HQS & HCI & (HG & HGI & HPN) & (_ & HB) & _ & Hk & Hr & Hdl & Hcv & Hcok)]; [congruence|].
   rewrite H in E1. injection E1 as <- <-.
   exists g, gs. split; [exact Ex|]. split; [exact HQS|].
   destruct HCI as (_ & HJ & (HLq & _) & _).
-  split; [exact (ji_frame _ _ _ HJ)|]. split; [|split; [|split; [exact Hdl|split; [|split; [exact Hk|exact HB]]]]].
+  split; [exact (ji_frame _ _ _ HJ)|]. split; [|split; [|split; [exact Hdl|split; [|split; [exact Hk|split; [exact HB|exact Hcok]]]]]].
   3:{ intros pl e gh f Hpl0 Hkp Ag Hf.
       assert (Hl0 : (Z.to_nat pl < Z.to_nat n)%nat).
       { assert (nth_error kinds (Z.to_nat pl) <> None) as X by congruence. apply nth_error_Some in X. lia. }
